@@ -60,6 +60,7 @@ PseudoVerdict(e) ==
        ELSE IF ~Inv_Lens(rs) THEN "Inv_C15_Lens"
        ELSE IF \E i \in DOMAIN e.records : e.records[i].chrom # e.chrom THEN "Inv_C15_Blocks_contig"
        ELSE IF ~Inv_Blocks(rs, cf) THEN "Inv_C15_Blocks"
+       ELSE IF ~Inv_MaxNSpan(rs, e.maxN) THEN "Inv_C15_MaxNSpan"
        ELSE IF \E i \in DOMAIN e.records : ~e.records[i].has_md THEN "Inv_C15_MD_missing"
        ELSE IF ~Inv_MD(rs, refAt) THEN "Inv_C15_MD"
        ELSE IF ~Inv_Call(rs, cf) THEN "Inv_C15_Call"
@@ -81,8 +82,10 @@ Notes(line, e) ==
     ELSE LET cf == ConfOf(e.reads)
              rs == [ i \in DOMAIN e.records |-> RecOf(e.records[i]) ]
              und  == { p \in DOMAIN cf : ~Decidable(cf[p]) }
-             cutok == /\ \A i \in DOMAIN rs : \A g \in GapsIn(rs[i]) : e.maxN < 0 \/ g <= e.maxN
-                      /\ (e.maxN < 0 => Len(rs) <= 1)
+             cutok == /\ (e.maxN < 0 => Len(rs) <= 1)
+                      /\ \A i \in 1 .. (Len(rs) - 1) :
+                            LET a == RecPositions(rs[i]) b == RecPositions(rs[i + 1])
+                            IN a = <<>> \/ b = <<>> \/ b[1] - a[Len(a)] - 1 > e.maxN
          IN /\ (IF und # {} THEN Note(line, e.tid, "call_rule_not_covered positions=" \o ToString(Cardinality(und))) ELSE TRUE)
             /\ (IF ~cutok THEN Note(line, e.tid, "divergence_split_differs_from_design") ELSE TRUE)
 
